@@ -28,5 +28,59 @@ def run(chk):
 
 
 def replay(chk, path):
+    import json
+    rep = json.load(open(path))
+    if rep.get("family") == "sync_scenarios":       # re-run the case on the current tree
+        import c13_sync
+        case, bad = c13_sync.replay_case(rep)
+        if bad:
+            print(json.dumps(dict(case, mismatch=bad[0], what=bad[1], got=bad[2], expected=bad[3]), indent=1,
+                             default=repr))
+            print(f"VIOLATION property=C13 replay={path}")
+            return 1
+        print(f"[C13] replay {path}: implementation agrees with the property text on this case")
+        return 0
     print(open(path).read())
     return 1
+
+
+_run_machines = run
+
+
+def run(chk):
+    """the machine-based check above, then the oracle-only family of harness/c13_sync.py (cold / synchronous /
+    future sources and re-entrant feedback)"""
+    import c13_sync
+    chk_finish = chk.finish
+    holder = {}
+
+    def deferred_finish(*a, **kw):
+        holder["args"] = (a, kw)
+        return 0
+    chk.finish = deferred_finish
+    _run_machines(chk)
+    chk.finish = chk_finish
+    nt, hist, fact_hist = c13_sync.scenarios(chk)
+    chk.cov["distinct_nontrivial"] += len(nt)
+    chk.cov["input_distribution"]["sync_scenarios"] = hist
+    chk.cov["sync_scenarios"] = {"cases": sum(hist.values()), "distinct_nontrivial": len(nt),
+                                 "cases_with": dict(sorted(fact_hist.items()))}
+    chk.cov["rule"] += ("; plus oracle-only scenarios (sync_scenarios, harness/c13_sync.py): rx.<op>(*sources) and "
+                        "source.pipe(ops.<op>(*others)) over 1-4 sources that are logged cold observables (a prefix incl. "
+                        "falsy values delivered synchronously inside subscribe(), then completed / error / open), hot "
+                        "Subjects and finished concurrent.futures.Future objects (zip, ops.amb), seeded scripts of "
+                        "push / complete / error / dispose, and a feedback map (the subscriber pushes into / completes / "
+                        "errors a source or disposes from inside on_next of its i-th element); the notifications (with "
+                        "the script step) are compared with the five pairing rules of the statement executed directly "
+                        "(subscription order during subscribe() taken from the run, combine_latest's completion after a "
+                        "source completed empty accepted at any moment), and after every step nothing may be subscribed "
+                        "once the output ended / was disposed and amb's losers may not be subscribed once a winner "
+                        "notified; non-trivial = agrees, >= 1 element emitted, and a synchronous element / end or a "
+                        "re-entrant feedback step occurred")
+    a, kw = holder["args"]
+    kw = dict(kw)
+    kw["assumptions"] = list(kw.get("assumptions", ())) + [
+        "sync_scenarios: where the statement is silent the reference follows the universal operator contract (the first "
+        "error of a source that is listened to ends the output; combine_latest completes when all sources have, "
+        "with_latest_from when the primary has); errors of amb's winner are 'mirrored' by the statement itself"]
+    return chk.finish(*a, **kw)
